@@ -664,13 +664,13 @@ def operands(leaves: list) -> list:
     return L + d1 + [('par', x) for x in d1]
 
 
-def depth2_for_left(leaves: list, ai: int) -> list:
+def depth2_for_left(leaves: list, ai: int, ops: tuple = BINOPS) -> list:
     """Depth-2 binary trees whose left operand is operands()[ai]."""
     O = operands(leaves)
     nl = len(leaves)
     a = O[ai]
     out = []
-    for op in BINOPS:
+    for op in ops:
         for bi, b in enumerate(O):
             if ai < nl and bi < nl:
                 continue     # depth 1, enumerated elsewhere
